@@ -599,3 +599,35 @@ UNITS += [
 # a pathlib value round-trips as the path it is: such an option never loads its value from the file the path names
 from contracts.any_units import is_pathlike_unit, typehint_init_unit  # noqa: E402
 UNITS += [is_pathlike_unit("C20"), typehint_init_unit("C20")]
+
+
+# restricted_string_type: the class created carries the compiled pattern (a text is compiled), and the registry key tells apart what the
+# pattern tells apart: the pattern text *and its flags* (a second type with the same text but re.I is another type, not the first one)
+def rst_setup(ctx):
+    given = ["text", "compiled", "compiled-with-flags"][ctx.choose(3, "regex")]
+    flags = {"text": 32, "compiled": 32, "compiled-with-flags": 34}[given]   # re.UNICODE / re.UNICODE | re.IGNORECASE
+    compiled = Rec("compiled pattern", attrs={"pattern": "^abc$", "flags": flags})
+    regex = "^abc$" if given == "text" else compiled
+    made = []
+    calls = {"re.compile": lambda c, a, k: (c.event("compile", a[0]), compiled)[1], "extend_base_type": lambda c, a, k: (made.append(dict(k)), Rec("created type"))[1]}
+    return Setup(env={"name": "Abc", "regex": regex, "docstring": "doc"}, calls=calls, consts={"str": ClassRef("str")}, data=dict(given=given, flags=flags, compiled=compiled, made=made))
+
+
+def rst_post(ctx, st, result):
+    d = st.data
+    tag = f"[{d['given']}]"
+    ok = len(d["made"]) == 1
+    k = d["made"][0] if ok else {}
+    ea = k.get("extra_attrs") or {}
+    ctx.oblige("post", "one-class-of-the-given-name-over-str-carrying-the-compiled-pattern,its-text-as-expression,and-the-docstring" + tag,
+               ok and k.get("name") == "Abc" and isinstance(k.get("base_type"), ClassRef) and k["base_type"].name == "str" and ea.get("_regex") is d["compiled"] and ea.get("_expression") == "matching ^abc$"
+               and k.get("docstring") == "doc" and k.get("validation_fn") is not None)
+    rk = k.get("register_key")
+    ctx.oblige("post", "the-registry-key-holds-the-pattern-text-and-its-flags:patterns-that-accept-different-strings-are-different-types" + tag,
+               isinstance(rk, tuple) and "matching ^abc$" in rk and d["flags"] in rk)
+    ctx.oblige("post", "a-pattern-given-as-text-is-compiled-once" + tag, len([e for e in ctx.events if e[0] == "compile"]) == (1 if d["given"] == "text" else 0))
+
+
+UNITS.append(Unit("C20", "jsonargparse.typing:restricted_string_type", rst_setup, rst_post, None, expect_cover=("return",),
+                  trusted=["extend_base_type: its own unit (a key already registered under the same name returns that class, under another name is refused; add_type refuses a second class of the same name)",
+                           "re.compile(text) compiles with the default flags"]))
